@@ -36,7 +36,11 @@ type c12Obs struct {
 // One observation per request.
 func c12Run(in *c01In) c12Obs {
 	in.Oracle = c01Oracles(in)
-	in.Mappers = nil
+	// Mappers[k] = MuxMapper content (both twins) while step k of Seq is served
+	for len(in.Mappers) < len(in.Seq) {
+		in.Mappers = append(in.Mappers, c01DefaultMapper(in.Server))
+	}
+	in.Mappers = in.Mappers[:len(in.Seq)]
 	if in.Server.CacheSize <= 0 {
 		in.Server.CacheSize = 1
 	}
@@ -78,6 +82,8 @@ func c12Run(in *c01In) c12Obs {
 			break
 		}
 		r := in.Reqs[idx]
+		cached.mapper.set(in.Mappers[k])
+		twin.mapper.set(in.Mappers[k])
 		st := c12Step{Cached: cached.serve(r), Twin: twin.serve(r)}
 		st.Keys = cached.cacheKeys()
 		obs.Outs = append(obs.Outs, st)
@@ -114,7 +120,16 @@ func c12GenCase(r *vfRand, adv bool) *c01In {
 		// variants sharing host, method and path (= the cache key) or colliding with it
 		for v := r.Intn(3); v > 0; v-- {
 			c := q
-			switch r.Intn(7) {
+			switch r.Intn(9) {
+			case 8: // plain OPTIONS on the same host+path
+				c.Method = "OPTIONS"
+			case 7: // CORS preflight announcing the original (or another) method: same key as a plain OPTIONS
+				acrm := q.Method
+				if r.Chance(1, 3) {
+					acrm = c01Pick(r, c01Methods)
+				}
+				c.Method = "OPTIONS"
+				c.Headers = append(append([][2]string{}, q.Headers...), [2]string{"Access-Control-Request-Method", acrm})
 			case 6: // same key, other body size (around the limits in force)
 				c.Body = r.PickInt(0, 1, 2, 5, 9, 17, 33, 40)
 				c.Chunked = r.Bool()
@@ -160,6 +175,11 @@ func c12GenCase(r *vfRand, adv bool) *c01In {
 	if adv {
 		n = r.Range(10, 50)
 	}
+	defer func() { // pipelines replaced / deleted / re-created between the requests of the sequence
+		if r.Chance(1, 3) || adv {
+			in.Mappers = c12GenMappers(r, in.Server, len(in.Seq))
+		}
+	}()
 	// reload targets: the identical spec, the same rules with other options / filters,
 	// other rules
 	if r.Chance(2, 3) || adv {
@@ -179,6 +199,39 @@ func c12GenCase(r *vfRand, adv bool) *c01In {
 		in.Seq = append(in.Seq, r.Intn(len(in.Reqs)))
 	}
 	return in
+}
+
+// c12GenMappers: one MuxMapper state per step; a change (delete, re-create, replace by a new
+// handler identity) about every fifth step, so that same-key requests precede each change.
+func c12GenMappers(r *vfRand, s c01Server, n int) [][]c01Backend {
+	cur := c01DefaultMapper(s)
+	next := 2
+	out := [][]c01Backend{}
+	for i := 0; i < n; i++ {
+		if i > 1 && r.Chance(1, 5) {
+			name := c01Pick(r, s.Backends)
+			idx := -1
+			for k, b := range cur {
+				if b.Name == name {
+					idx = k
+				}
+			}
+			upd := append([]c01Backend{}, cur...)
+			switch {
+			case idx < 0:
+				upd = append(upd, c01Backend{Name: name, Gen: next})
+				next++
+			case r.Chance(1, 2):
+				upd = append(upd[:idx:idx], upd[idx+1:]...)
+			default:
+				upd[idx] = c01Backend{Name: name, Gen: next}
+				next++
+			}
+			cur = upd
+		}
+		out = append(out, append([]c01Backend{}, cur...))
+	}
+	return out
 }
 
 func c12CloneServer(s c01Server) c01Server {
